@@ -815,7 +815,17 @@ fn check_faulted(
   let plan_owned: Vec<(ReqId, Fault)> =
     fired.iter().map(|x| (*x).clone()).collect();
   let affected = affected_set(world, bshape, &plan_owned);
-  let indep = independent_nodes(bshape, &affected);
+  // independent in both graphs: the fault may make new modules reachable
+  // (the target of an injected redirect), which then import - and may be the
+  // first to visit - modules of the fault-free graph
+  let indep_f = independent_nodes(fshape, &affected);
+  let indep: BTreeSet<String> = independent_nodes(bshape, &affected)
+    .into_iter()
+    .filter(|n| {
+      indep_f.contains(n)
+        || !(fshape.slots.contains_key(n) || fshape.redirects.contains_key(n))
+    })
+    .collect();
   let mappings_same =
     base.obs["packages"]["mappings"] == run.obs["packages"]["mappings"];
   for n in &indep {
